@@ -128,6 +128,11 @@ func replayBatch(cases []*replayFile, workDir string) []replayOutcome {
 				o.Reproduced = strings.HasPrefix(o.End, "PANIC") || (o.End == "" && (strings.Contains(text, "panic:") || strings.Contains(text, "fatal error:")))
 			case "deadlock", "unwind":
 				o.Reproduced = o.End == "HANG" || strings.Contains(text, "all goroutines are asleep")
+			case "race":
+				o.Reproduced = libraryRaceReported(text)
+				if o.Reproduced {
+					o.End += "+RACE"
+				}
 			case "leak":
 				o.Reproduced = o.Leaked || o.End == "HANG"
 				if o.Leaked {
@@ -264,6 +269,14 @@ func TestVReplay(t *testing.T) {
 		if rep < 1 || rf.Obligation.Class == "cover" {
 			rep = 1
 		}
+		switch rf.Obligation.Class {
+		case "deadlock", "unwind", "leak", "panic", "race":
+			// schedule-dependent outcomes: a non-reproducing attempt takes milliseconds, so try often
+			// (bounded by the 45 s cap per case in vReplayCase)
+			if rep > 1 && rep < 300 {
+				rep = 300
+			}
+		}
 		fmt.Fprintf(&sb, "}, %s, %d, %q, %q)\n", rf.Func, rep, rf.Obligation.Class, rf.Obligation.ID)
 	}
 	sb.WriteString("}\n")
@@ -299,7 +312,15 @@ func TestVReplay(t *testing.T) {
 	if pkg != "" && pkg != "root" {
 		rel = "./" + pkg
 	}
-	cmd := exec.CommandContext(ctx, "go", "test", "-v", "-vet=off", "-count=1", "-run", "^TestVReplay$", "-overlay", ovFile, rel)
+	args := []string{"test", "-v", "-vet=off", "-count=1", "-run", "^TestVReplay$", "-overlay", ovFile}
+	for _, i := range idxs {
+		if cases[i].Obligation.Class == "race" {
+			args = append(args, "-race")
+			break
+		}
+	}
+	args = append(args, rel)
+	cmd := exec.CommandContext(ctx, "go", args...)
 	cmd.Dir = repoDir
 	cmd.Env = append(os.Environ(), "GOFLAGS=-mod=mod", "GOPROXY=off", "GOSUMDB=off", "GOTOOLCHAIN=local")
 	outb, _ := cmd.CombinedOutput()
@@ -378,4 +399,47 @@ func instrumentJitter(path string) ([]byte, error) {
 		return nil, err
 	}
 	return buf.Bytes(), nil
+}
+
+// libraryRaceReported: the race detector's output contains a report whose two accesses are both in library
+// code (the harness itself is racy by design: it reads recorder fields without synchronisation).
+func libraryRaceReported(text string) bool {
+	blocks := strings.Split(text, "WARNING: DATA RACE")
+	for _, b := range blocks[1:] {
+		if end := strings.Index(b, "=================="); end >= 0 {
+			b = b[:end]
+		}
+		// sections start with "Read at", "Write at", "Previous read at", "Previous write at"; the first
+		// file line after each header is the accessing frame
+		lines := strings.Split(b, "\n")
+		var tops []string
+		for i := 0; i < len(lines); i++ {
+			l := strings.TrimSpace(lines[i])
+			if strings.HasPrefix(l, "Read at") || strings.HasPrefix(l, "Write at") || strings.HasPrefix(l, "Previous read at") || strings.HasPrefix(l, "Previous write at") {
+				for j := i + 1; j < len(lines); j++ {
+					f := strings.TrimSpace(lines[j])
+					if strings.HasPrefix(f, "/") {
+						tops = append(tops, f)
+						break
+					}
+					if f == "" {
+						break
+					}
+				}
+			}
+		}
+		if len(tops) < 2 {
+			continue
+		}
+		lib := true
+		for _, tp := range tops[:2] {
+			if strings.Contains(tp, "zz_verif") || strings.Contains(tp, "/ov") || !strings.Contains(tp, repoDir+"/") {
+				lib = false
+			}
+		}
+		if lib {
+			return true
+		}
+	}
+	return false
 }
